@@ -1350,6 +1350,10 @@ ssize_t simw_read(int fd, void *buf, size_t n) { SHIM;
     Inode &in = s.world.inodes[e.ino];
     if (in.type == T_DIR) { ev(OP_READ, fd, -EISDIR); errno = EISDIR; return -1; }
     data = &in.data; pos = &e.off; fr = &s.world.file_frag;
+    if (in.visible >= 0) {      // another process is appending to the file while lbzip2 reads it
+      if ((int)in.reads++ >= in.grow_at || e.off >= (size_t)in.visible) { in.visible = -1; s.res->file_grew++; }
+      else { size_t lim = (size_t)in.visible; size_t av = e.off < lim ? lim - e.off : 0; if (n > av) n = av; }
+    }
   }
   size_t avail = *pos < data->size() ? data->size() - *pos : 0;
   if (n > avail) n = avail;
@@ -1437,7 +1441,7 @@ static void fill_stat(const Inode &in, int ino, struct stat *st) {
   st->st_mode = tm[in.type] | (in.mode & 07777);
   st->st_nlink = in.nlink;
   st->st_uid = in.uid; st->st_gid = in.gid;
-  st->st_size = in.type == T_DIR ? 4096 : (off_t)in.data.size();
+  st->st_size = in.type == T_DIR ? 4096 : in.visible >= 0 ? (off_t)in.visible : (off_t)in.data.size();
   st->st_atim.tv_sec = in.atime_s; st->st_atim.tv_nsec = in.atime_ns;
   st->st_mtim.tv_sec = in.mtime_s; st->st_mtim.tv_nsec = in.mtime_ns;
   st->st_ctim = st->st_mtim;
